@@ -413,7 +413,15 @@ def gen_coll_case(rng, malformed=False):
         lists[k]["ids"], lists[k]["vocab"], lists[k]["nums"] = None, None, list(range(lists[k]["n"]))   # numbers only
         lists[k]["chain"] = []
     batch = rng.choice([1, 2, 3, 5000, 5000])
-    return {"kind": "coll", "kf": kf, "keykind": keykind, "keys": keys, "lists": lists, "batch": batch, "style": style, "malformed": malformed}
+    # session 2 (seed C15-10): the list-of-paths form of load_parquet -- the collection is written as 2-3 part files whose
+    # NAMES sort in the opposite order to the order they are passed in; only for lists of one schema (a part of its own
+    # has its own inferred Arrow schema) -- a rarely used parameter form, same expected result as the one-file round trip
+    prng = rng.fork(("parts",))
+    parts = 1
+    if style == "uniform" and not malformed and nl >= 2 and all(il["n"] > 0 for il in lists) and prng.chance(2, 3):
+        parts = prng.choice([2, 2, 3])
+    return {"kind": "coll", "kf": kf, "keykind": keykind, "keys": keys, "lists": lists, "batch": batch, "style": style, "malformed": malformed,
+            "parts": parts}
 
 
 def gen_key_case(rng):
@@ -787,7 +795,21 @@ def run_coll(case):
         if not os.path.exists(p):
             return {"states": states, "before": before, "after": None, "error": "nofile", "msg": ""}
         try:
-            c2 = ItemListCollection.load_parquet(p)
+            entries = list(zip(c.keys(), c.lists()))
+            parts = min(int(case.get("parts", 1)), len(entries))
+            if parts > 1:
+                bounds = [len(entries) * j // parts for j in range(parts + 1)]
+                paths = []
+                for j in range(parts):
+                    sub = ItemListCollection(case["kf"])
+                    for k, il in entries[bounds[j]:bounds[j + 1]]:
+                        sub.add(il, *k)
+                    pj = os.path.join(d, f"part-{parts - j}.parquet")      # file names sort against the order passed
+                    sub.save_parquet(pj, batch_size=case["batch"])
+                    paths.append(pj)
+                c2 = ItemListCollection.load_parquet(paths)
+            else:
+                c2 = ItemListCollection.load_parquet(p)
         except Exception as e:
             return {"states": states, "before": before, "after": None, "error": "load:" + _errname(e), "msg": str(e)[:160]}
         after = {"kf": list(c2.key_fields), "keys": [[_unkey(v) for v in k] for k in c2.keys()],
@@ -1518,6 +1540,7 @@ def counters(case, obs):
         yield "coll:lists=" + str(min(len(case["lists"]), 5))
         yield "coll:result=" + (obs["error"] or "ok")
         yield "coll:keyfields=" + str(len(case["kf"]))
+        yield "coll:files=" + str(case.get("parts", 1))
         if len(case["keys"]) != len({tuple(x) for x in case["keys"]}):
             yield "coll:duplicate-keys"
         if any(s["len"] == 0 for s in obs["states"]):
